@@ -217,6 +217,14 @@ def check_cell(cfg, sh, seed, part, prior, dec, scratch):
         except Exception as e:
             part.violation(dict(case0, rows="returned-iterative"), f"iterative sampler raised on a valid input: {type(e).__name__}: {str(e)[:200]}")
             return
+    if res is not None and np.all(np.isfinite(mll_all)) and (sh["n"] + cfg["n_offsets"]) % 2 == 1:
+        # the cache-file route in randomised order: the reported ln_likelihood must still belong to the row it is attached to
+        try:
+            res_fr = joker.rejection_sample(data, lib, randomize_prior_order=True, return_logprobs=True, n_batches=2)
+            results.append(("returned-file-random", res_fr))
+        except Exception as e:
+            part.violation(dict(case0, rows="returned-file-random"), f"rejection_sample (file route, random order) raised on a valid input: {type(e).__name__}: {str(e)[:200]}")
+            return
     for rows_name, res in results:
       if res is not None and len(res) > 0:
         P = np.atleast_1d(res["P"].to_value(u.day))
